@@ -63,8 +63,8 @@ type scenario struct {
 // ack-rapid: an ACK with the Rapid Commit option (80) in answer to a DISCOVER that did not ask for it; ack-longsid /
 // nak-longsid: option 54 holds the right server's address followed by four more octets (sent as one 8-octet option or as
 // two instances, which is the same value): not that server's identifier.
-var discKinds = []string{"notype", "badtype", "inform", "offer", "offer", "offer-dup", "offer-wrongxid", "ack-instead", "nak-instead", "ack-rapid", "undecodable", "empty", "one-octet", "offer-wronghw", "offer-emptyhw", "offer-request-opcode", "silence"}
-var reqKinds = []string{"notype", "badtype", "inform", "ack", "ack", "nak", "ack-othersid", "ack-nosid", "ack-longsid", "nak-longsid", "offer-again", "ack-wrongxid", "nak-othersid", "undecodable", "empty", "one-octet", "silence"}
+var discKinds = []string{"notype", "badtype", "inform", "offer", "offer", "offer-dup", "offer-wrongxid", "ack-instead", "nak-instead", "ack-rapid", "undecodable", "empty", "one-octet", "offer-wronghw", "offer-emptyhw", "offer-request-opcode", "inform-x40", "silence"}
+var reqKinds = []string{"notype", "badtype", "inform", "ack", "ack", "nak", "ack-othersid", "ack-nosid", "ack-longsid", "nak-longsid", "offer-again", "ack-wrongxid", "nak-othersid", "undecodable", "empty", "one-octet", "offer-again-x40", "silence"}
 
 func genScenario(rng *rand.Rand, maxServers, maxReact int) scenario {
 	sc := scenario{Bcast: rng.IntN(2) == 0, Cfg: rng.IntN(cli.NCfg), Unicast: rng.IntN(3) == 0}
@@ -212,7 +212,17 @@ func (w *world) datagram(sv *server, si int, kind string, req *ref4.P4) (*inject
 	if sid != nil {
 		p.UpdateOption(dhcpv4.OptGeneric(dhcpv4.OptionServerIdentifier, sid))
 	}
-	p.UpdateOption(dhcpv4.OptIPAddressLeaseTime(3600 * time.Second))
+	// the lease time is the server's choice: an hour, a second (the lease has run out by the time the client renews, 1.5 s
+	// later: renewal is what the caller asked for all the same), infinity, none given
+	switch n % 6 {
+	case 1:
+		p.UpdateOption(dhcpv4.OptIPAddressLeaseTime(time.Second))
+	case 3:
+	case 5:
+		p.UpdateOption(dhcpv4.OptIPAddressLeaseTime(0xffffffff * time.Second))
+	default:
+		p.UpdateOption(dhcpv4.OptIPAddressLeaseTime(3600 * time.Second))
+	}
 	// fields and options the exchange rules do not look at, varied per datagram: a next-server address that is not the
 	// server identifier (a boot server), a relay address, a boot file, the usual lease options
 	if n%2 == 0 {
@@ -346,7 +356,20 @@ func run(t *testing.T, sc scenario) (o outcome) {
 								case <-stop:
 									return
 								}
-								in, b := w.datagram(sv, si, re.Kind, rec.p)
+								// "-x40": forty replies of that kind in a row (a chatty or looping server): everything else is ignored
+								// "in any multiplicity"
+								kind, reps := re.Kind, 1
+								if strings.HasSuffix(kind, "-x40") {
+									kind, reps = strings.TrimSuffix(kind, "-x40"), 40
+								}
+								for ; reps > 1; reps-- {
+									in, b := w.datagram(sv, si, kind, rec.p)
+									ok := conn.Inject(sconn.Datagram{B: b, Nonce: in.nonce, Class: in.class, From: &net.UDPAddr{IP: net.IP(sv.ID[:]), Port: 67}})
+									w.mu.Lock()
+									in.taken = ok
+									w.mu.Unlock()
+								}
+								in, b := w.datagram(sv, si, kind, rec.p)
 								// where a reply comes from is not part of the exchange rules: the server's address and port 67,
 								// another port (a server behind a translator, PXE's 4011), a relay's address
 								from := &net.UDPAddr{IP: net.IP(sv.ID[:]), Port: 67}
@@ -387,7 +410,7 @@ func run(t *testing.T, sc scenario) (o outcome) {
 		o.lease, o.reqErr = c.Request(ctx, mods...)
 		o.reqRetSeq = sconn.NextSeq()
 		if o.lease != nil {
-			time.Sleep(time.Second) // stale replies of the first exchange have drained
+			time.Sleep(1500 * time.Millisecond) // stale replies of the first exchange have drained
 			o.renewStartSeq = sconn.NextSeq()
 			o.renewed, o.renewErr = c.Renew(ctx, o.lease)
 			o.renewRetSeq = sconn.NextSeq()
